@@ -38,14 +38,15 @@ Definition view_ls2 (l : leaseset2) : g_lease_set2_LeaseSet2 :=
 Definition ls2_validate (l : leaseset2) : bool := g_lease_set2_LeaseSet2_Validate (view_ls2 l).
 
 (* ---- constructor argument checks, on arguments decoded from the harness's encoding ---- *)
-(* keys: each as type(2) declared-length(2) actual-length(2) data *)
+(* keys: each as type(2) declared-length(2) actual-length(3) data — the actual length has its own,
+   wider field so that data longer than any 16-bit declared length can be described *)
 Fixpoint decode_ctor_keys (fuel : nat) (b : bytes) : list g_lease_set2_EncryptionKey :=
   match fuel with
   | O => []
   | S f =>
       match b with
-      | t1 :: t0 :: l1 :: l0 :: a1 :: a0 :: rest =>
-          let n := N.to_nat (be_decode [a1; a0]) in
+      | t1 :: t0 :: l1 :: l0 :: a2 :: a1 :: a0 :: rest =>
+          let n := N.to_nat (be_decode [a2; a1; a0]) in
           {| g_lease_set2_EncryptionKey__KeyLen := Z.of_N (be_decode [l1; l0]);
              g_lease_set2_EncryptionKey__KeyData := firstn n rest;
              g_lease_set2_EncryptionKey__KeyType := Z.of_N (be_decode [t1; t0]) |} :: decode_ctor_keys f (skipn n rest)
